@@ -1,13 +1,18 @@
 /-!
 # C18 — convolution, kernels, special-function approximations (`pewlib.process.convolve`) — partial
 
-Everything here is exact arithmetic over `Rat`: the pad-mode convolution, the series division that
-the frequency-domain deconvolution computes when nothing wraps, `linspace`, normalisation by the
-sum, the rational error-function approximation, the polynomial-with-recursion gamma approximation
-and the triangular density — these parts of the code are rational functions of their inputs and are
-modelled as coded.  The densities built from `exp`/`log`/real powers, `erfinv` (log1p, sqrt, π) and
-the *accuracy* of the approximations against the true transcendental functions are not modelled;
-the harness validates those numerically (see `harness/c18.py`).
+Exact arithmetic over `Rat`: the pad-mode convolution, the series division that the frequency-domain
+deconvolution computes when nothing wraps, Python's slice `[: len c − len psf − 1]` (negative stops included),
+`linspace`, normalisation by the sum and the stacking into (x, weight) rows, the rational error-function
+approximation, the polynomial-with-recursion gamma approximation and the triangular density — these parts of
+the code are rational functions of their inputs and are modelled as coded.
+
+The other eight kernel generators are modelled as coded *around* their density: the axis, the evaluation of
+the density on it, the division by the sum, the stacking (`generatorWith`, the density being a parameter with
+values in any field).  `erfinv` is modelled as coded around its transcendental pieces (`erfinvWith`: π, log1p
+and sqrt are parameters, `Transc`).  The *accuracy* of the approximations against the true transcendental
+functions and the positivity of `exp`/powers in the eight density formulas are not modelled; the harness
+validates those numerically (see `harness/c18.py`).
 -/
 namespace Pew.Convolve
 
@@ -53,22 +58,33 @@ def seriesDiv (c psf : List Rat) : Nat → List Rat
     q ++ [(at0 c r - ((List.range psf.length).map (fun j =>
       if 1 ≤ j ∧ j ≤ r then at0 psf j * at0 q (r - j) else 0)).sum) / at0 psf 0]
 
-/-- `np.trim_zeros` -/
-def trimZeros (l : List Rat) : List Rat :=
-  ((l.dropWhile (· == 0)).reverse.dropWhile (· == 0)).reverse
+/-- `1 << (n - 1).bit_length()`: the smallest power of two ≥ n for n ≥ 1 (and 2 for n = 0, because
+`(-1).bit_length() = 1`) -/
+def nextPow2 (n : Nat) : Nat := if n = 0 then 2 else if n = 1 then 1 else 2 ^ (Nat.log2 (n - 1) + 1)
 
-/-- `1 << (n - 1).bit_length()` for n ≥ 1: the smallest power of two ≥ n -/
-def nextPow2 (n : Nat) : Nat := if n ≤ 1 then 1 else 2 ^ (Nat.log2 (n - 1) + 1)
+/-- Python's `l[:k]` for any integer `k`: the first `k` items when `k ≥ 0`, all but the last `−k` items when
+`k < 0`, both clamped to the list -/
+def pySliceTo {α : Type} (l : List α) (k : Int) : List α :=
+  if 0 ≤ k then l.take k.toNat else l.take (l.length - (-k).toNat)
 
-/-- `deconvolve(c, psf, mode="valid")` -/
+/-- `deconvolve(c, psf, mode="valid")`: `np.real(y)[: c.size - psf.size - 1]` with `y` the `r` coefficients of
+the quotient (no `np.trim_zeros` since /repo 5e4648b: an exactly zero sample is part of the signal) -/
 def deconvolve (c psf : List Rat) : List Rat :=
   let r := nextPow2 (max c.length psf.length)
-  (trimZeros (seriesDiv c psf r)).take (c.length - psf.length - 1)
+  pySliceTo (seriesDiv c psf r) ((c.length : Int) - (psf.length : Int) - 1)
 
 /-- `deconvolve(c, psf, mode="same")`: `np.hstack((rec, c[rec.size:]))` -/
 def deconvolveSame (c psf : List Rat) : List Rat :=
   let rec_ := deconvolve c psf
   rec_ ++ c.drop rec_.length
+
+/-- the quotient `c / psf` has fewer than `r` coefficients: the product of its first `r` coefficients with
+`psf` is `c` again (trailing zeros aside).  Then, and only then, the trusted statement "the FFT quotient is the
+series quotient" applies; the driver reports this for every case. -/
+def quotientTerminates (c psf : List Rat) : Bool :=
+  let r := nextPow2 (max c.length psf.length)
+  let q := seriesDiv c psf r
+  (List.range (r + psf.length)).all (fun t => fullConvAt q psf t == at0 c t)
 
 /-! ## linspace and normalisation -/
 
@@ -79,6 +95,16 @@ def linspace (a b : Rat) (n : Nat) : List Rat :=
 
 /-- `y / y.sum()` -/
 def normalise (y : List Rat) : List Rat := y.map (· / y.sum)
+
+/-- `y / y.sum()` for values in any type with `+`, `0`, `/` (the real-valued densities) -/
+def normaliseK {K : Type} [Add K] [Zero K] [Div K] (y : List K) : List K := y.map (· / y.sum)
+
+/-- `np.stack((x, w), axis=1)`: one row `[x_i, w_i]` per axis point -/
+def stackCols {K : Type} (x : List Rat) (w : List K) : List (Rat × K) := x.zip w
+
+/-- the common body of the nine generators: `y = pdf(x); np.stack((x, y / y.sum()), axis=1)` -/
+def kernelWith {K : Type} [Add K] [Zero K] [Div K] (axis : List Rat) (pdf : Rat → K) : List (Rat × K) :=
+  stackCols axis (normaliseK (axis.map pdf))
 
 /-! ## error function (Abramowitz–Stegun 7.1.27 as coded) -/
 
@@ -94,9 +120,25 @@ def erfSum (x : Rat) : Rat :=
 /-- `sign * (1 - 1 / (1 + sum(|x|)) ** 4)` -/
 def erfApprox (x : Rat) : Rat := sgn x * (1 - 1 / (1 + erfSum (absR x)) ^ 4)
 
-/-- shape of the inverse error function approximation: `sign(x) * g(x * x)` (g is built from
-log1p, sqrt and π and is not modelled) -/
-def erfinvShape (g : Rat → Rat) (x : Rat) : Rat := sgn x * g (x * x)
+/-! ## inverse error function (Winitzki, as coded, around its transcendental pieces) -/
+
+/-- the pieces of `erfinv` that are not rational functions, as parameters: the embedding of the float
+constants, π, `np.log1p` (applied to the rational `-x * x`) and `np.sqrt` -/
+structure Transc (K : Type) where
+  ofRat : Rat → K
+  pi : K
+  log1p : Rat → K
+  sqrt : K → K
+
+/-- `erfinv(x)` as coded:
+`sign = np.sign(x); l = np.log1p(-x * x); tt1 = 2.0 / (np.pi * 0.14) + 0.5 * l; tt2 = 1.0 / 0.14 * l;`
+`sign * np.sqrt(-tt2 / (tt1 + np.sqrt(tt1 * tt1 - tt2)))` -/
+def erfinvWith {K : Type} [Add K] [Sub K] [Mul K] [Div K] [Neg K] (T : Transc K) (x : Rat) : K :=
+  let sign := T.ofRat (sgn x)
+  let l := T.log1p (-x * x)
+  let tt1 := T.ofRat 2 / (T.pi * T.ofRat (14 / 100)) + T.ofRat (1 / 2) * l
+  let tt2 := T.ofRat 1 / T.ofRat (14 / 100) * l
+  sign * T.sqrt (-tt2 / (tt1 + T.sqrt (tt1 * tt1 - tt2)))
 
 /-! ## gamma function (Abramowitz–Stegun 6.1.36 polynomial with recursion, as coded) -/
 
@@ -140,8 +182,37 @@ def axisPos (size : Nat) (scale shift : Rat) : List Rat :=
 def axisUnit (size : Nat) (scale shift : Rat) : List Rat :=
   linspace shift (1 * scale + shift) size
 
-def triangular (size : Nat) (a b scale shift : Rat) : List Rat × List Rat :=
-  let x := axisSym size scale shift
-  (x, normalise (x.map (triangularPdf a b)))
+/-- which of the three axes a generator samples -/
+inductive AxisKind where
+  | unit | pos | sym
+  deriving DecidableEq, Repr
+
+def axisOf : AxisKind → Nat → Rat → Rat → List Rat
+  | .unit => axisUnit
+  | .pos => axisPos
+  | .sym => axisSym
+
+/-- a kernel generator around its density: the axis of its kind, the density on it, the division by the sum,
+the (x, weight) rows -/
+def generatorWith {K : Type} [Add K] [Zero K] [Div K] (kind : AxisKind) (pdf : Rat → K)
+    (size : Nat) (scale shift : Rat) : List (Rat × K) :=
+  kernelWith (axisOf kind size scale shift) pdf
+
+/-- `triangular(size, a, b, scale, shift)`, modelled completely -/
+def triangular (size : Nat) (a b scale shift : Rat) : List (Rat × Rat) :=
+  generatorWith .sym (triangularPdf a b) size scale shift
+
+/-! The other eight generators, as coded around their density function (`beta_pdf(·, alpha, beta)`,
+`exponential_pdf(·, lambda)`, …: built from `exp`, `log`, real powers, `sqrt(2π)` and the gamma
+approximation), which is the parameter `pdf`. -/
+
+def betaWith {K : Type} [Add K] [Zero K] [Div K] (pdf : Rat → K) := generatorWith (K := K) .unit pdf
+def exponentialWith {K : Type} [Add K] [Zero K] [Div K] (pdf : Rat → K) := generatorWith (K := K) .pos pdf
+def inversegammaWith {K : Type} [Add K] [Zero K] [Div K] (pdf : Rat → K) := generatorWith (K := K) .pos pdf
+def loglaplaceWith {K : Type} [Add K] [Zero K] [Div K] (pdf : Rat → K) := generatorWith (K := K) .pos pdf
+def lognormalWith {K : Type} [Add K] [Zero K] [Div K] (pdf : Rat → K) := generatorWith (K := K) .pos pdf
+def laplaceWith {K : Type} [Add K] [Zero K] [Div K] (pdf : Rat → K) := generatorWith (K := K) .sym pdf
+def normalWith {K : Type} [Add K] [Zero K] [Div K] (pdf : Rat → K) := generatorWith (K := K) .sym pdf
+def superGaussianWith {K : Type} [Add K] [Zero K] [Div K] (pdf : Rat → K) := generatorWith (K := K) .sym pdf
 
 end Pew.Convolve
